@@ -34,6 +34,13 @@ def wsync(mode, nq, nt, pq=1, pt=4):
     d["name"] = "filtersync-w-" + mode
     return d
 
+def freplay(nq, nt, pq=2, pt=6):
+    """specification -> implementation: behaviours of MC_FilterForkR (tlc -simulate) executed on the real client,
+    with the write-level observation on"""
+    return {"name": "filtersync-replay", "driver": "filtersync", "args": ["mode=replay", "wlog=1"], "trace_module": "Trace_FilterSync",
+            "gen": {"module": "MC_FilterForkR", "cfg": "MC_FilterForkR.cfg", "num": {"quick": 300, "thorough": 3000}, "depth": 24},
+            "n": {"quick": nq, "thorough": nt}, "procs": {"quick": pq, "thorough": pt}}
+
 def mc_cp(name, quick, tq=600, tt=3000):
     return {"module": "MC_CheckPoints", "cfg": {"quick": ("MC_CheckPoints_%s.cfg" % name) if quick else None, "thorough": "MC_CheckPoints_%s.cfg" % name},
             "timeout": {"quick": tq, "thorough": tt}, "workers": 8}
@@ -75,7 +82,7 @@ CHECKS = {
     "C04": {
         "trace_module": "Trace_FilterSync",
         "mc": [MC_FILTERSYNC, MC_FILTERFORK, MC_FILTERFORK_PREFIX],
-        "drivers": [fsync("fork", 40, 300, 4, 10), fsync("forkrand", 15, 100, 1, 4), wsync("fork", 8, 60, 1, 3)],
+        "drivers": [fsync("fork", 40, 300, 4, 10), fsync("forkrand", 15, 100, 1, 4), wsync("fork", 8, 60, 1, 3), freplay(100, 1000, 2, 6)],
         "assumptions": FS_ASSUMPTIONS,
     },
     "C07": {
@@ -102,7 +109,7 @@ CHECKS = {
     "C09": {
         "trace_module": "Trace_FilterSync",
         "mc": [MC_FILTERSYNC],
-        "drivers": [fsync("scripts", 50, 300, 6, 10), fsync("sync", 10, 60, 1, 4)],
+        "drivers": [fsync("scripts", 50, 300, 6, 10), fsync("sync", 10, 60, 1, 4), freplay(100, 1000, 2, 6)],
         "assumptions": FS_ASSUMPTIONS,
     },
     "C06": {
